@@ -27,6 +27,9 @@ ENVQ = CORE + 'Environment'
 def run(cx: Cx):
     check_has_all(cx, CORE + 'Agent.has_component', 'components')
     _rest(cx)
+    from .common import include_premises
+    include_premises(cx, ['C20'], 'filtering by tag is exact only if an agent carries the tag it was given (tag 0 included)',
+                     only=lambda o: 'Agent.__init__' in o.function)
 
 
 def check_has_all(cx: Cx, q: str, field: str):
